@@ -87,56 +87,8 @@ def substitution_cases():
         if __import__("engine.contract", fromlist=["deep"]).deep() else [])
 
 
-class PolyOuter:
-    """numpoly.outer(a, b) for a numeric array a and a 0-d polynomial b; only its reshape to a.shape (+ ()) is modelled:
-    element i is a[i] * b  (ASSUMED contract of numpoly.outer composed with reshape; bounded check C10/C02)"""
-
-    def __init__(self, a, b):
-        self.a, self.b = a, b
-
-    def sx_getattr(self, ex, attr, node):
-        return V.BoundMethod(self, attr)
-
-    def sx_isinstance(self, ex, name):
-        return name == "numpoly.ndpoly"
-
-    def sx_method(self, ex, attr, args, kw, node):
-        from engine.logic import ndim, PV
-        from engine.polymodel import the_idx, _num, _freeze
-        from contracts.division import pconst
-        from contracts.dispatchfn import pmul
-        if attr == "reshape" and len(args) == 1 and isinstance(args[0], ShapeV) and not kw:
-            a, b = self.a, self.b
-            ctx = ex.ctx
-            site = ex.site("outer_reshape")
-            ex.oblige(f"pre({site}).target_shape", args[0].term == sconcat(a.shape, b.shape), "precondition", node)
-            fa = _freeze(a)
-            r = Poly(ctx, ctx.fresh("outer"), shape=args[0].term, region=Region("fresh", "outer"))
-            r.owndata = z3.BoolVal(True)
-            ctx.assume(r.wf(ctx))
-            ctx.assume(ctx.forall_range(0, r.N, lambda t: keyok(r.row(t), r.D)))
-            if z3.eq(b.shape, shp0):
-                ctx.assume(ctx.forall_idx(lambda i: r.val(i) == pmul(pconst(_num(fa(i))), b.val(the_idx(b.shape))), args[0].term))
-            else:
-                # element (i ++ j) of outer(a, b).reshape(a.shape + b.shape) is a[i] * b[j]
-                from engine.polymodel import ileft, iright
-                sa, sb = a.shape, b.shape
-                ctx.assume(ctx.forall_idx(lambda p_: r.val(p_) == pmul(pconst(_num(fa(ileft(p_, sa, sb)))), b.val(iright(p_, sa, sb))), args[0].term))
-            r.outer_of = (a, b)
-            return r
-        raise U(f"outer product .{attr}", node)
-
-
 def install_axioms(reg):
-    prev = reg.fn.get("numpoly.outer")
-
-    def outer(ex, args, kw, node):
-        if len(args) == 2 and isinstance(args[0], Arr) and isinstance(args[1], Poly) and not kw:
-            return PolyOuter(args[0], args[1])
-        if prev is not None:
-            return prev(ex, args, kw, node)
-        raise U("numpoly.outer in this form", node)
-    reg.fn["numpoly.outer"] = outer
+    """(numpoly.outer is under contract now - contracts/linalg.py - and its reshape is numpy's ndarray.reshape: engine.polymodel)"""
 
 
 class Call(Contract):
@@ -149,8 +101,8 @@ class Call(Contract):
                    "indeterminate tuples enumerated: (q0,), (q0, q1); ways of supplying points enumerated (10 + 4 cases)",
                    "scalar points / 0-d polynomials only; assumed shape-only contract of numpoly.polynomial for numbers",
                    "polynomial substitution: value-level contracts of power (proved: PowerScalar), multiply (proved), add (proved), "
-                   "clean_attributes / align_indeterminants (proved: value kept); ASSUMED: numpoly.outer(array, 0-d polynomial) reshaped "
-                   "to the array's shape is the element-wise product; B10 (a constant polynomial denotes the constant tonumpy returns)")
+                   "clean_attributes / align_indeterminants (proved: value kept), outer (proved, contracts/linalg.py); numpy axiom: reshape of "
+                   "outer(a, b) to a.shape + b.shape keeps the C order; B10 (a constant polynomial denotes the constant tonumpy returns)")
 
     def _loops(self, D):
         def inv(ex, env, k):
